@@ -1,7 +1,8 @@
 (* C16 — Concurrent mutations of one row do not lose acknowledged changes.
    Property theorems only: statement, exact, Print Assumptions.  Proofs: proofs/C16P.v.
-   Model: model/Pipeline.v (read / validate / write phases of MutationQuery and the schedules
-   the reader pool, the authorisation actor and the batch writer allow). *)
+   Model: model/Pipeline.v (read / validate / write phases of MutationQuery and DeletionQuery —
+   updates, creations, deletions of whole rows, rights of the rooms entered and left — and the
+   schedules the reader pool, the authorisation actor and the batch writer allow). *)
 From Coq Require Import Permutation.
 From DV Require Import Pipeline Run_C16 C16P.
 
@@ -9,10 +10,11 @@ From DV Require Import Pipeline Run_C16 C16P.
    phases, the state is what the acknowledged mutations give when applied one after another in
    some order, each with the abstract semantics spec_apply of run/Run_C16.v (assigned fields
    change, all others keep their value; single reference = replace, array reference = add,
-   null = remove; a given room moves the row). *)
+   null = remove; a given room moves the row; a creation adds the row, a deletion removes it and
+   the references that start from it). *)
 Definition C16_full : Prop :=
-  forall d ms sigma s,
-    run_sched d ms sigma = Some s -> complete (length ms) sigma = true ->
+  forall rt d ms sigma s,
+    wf_db d = true -> run_sched rt d ms sigma = Some s -> complete (length ms) sigma = true ->
     exists pi, Permutation (s_acked s) pi /\ s_db s = fold_left (spec_apply_i ms) pi d.
 
 (* (1) the faithful model violates it *)
@@ -20,12 +22,12 @@ Theorem C16_refuted : ~ C16_full.
 Proof. exact full_refuted. Qed.
 Print Assumptions C16_refuted.
 
-(* the three closed witnesses (schedule R1 R2 V1 W1 V2 W2 on one row); the harness replays
-   exactly these against the real phases on every run (cases "witness:*") *)
+(* closed witnesses of class 1 (overlapping windows on one row); the harness replays exactly
+   these against the real phases on every run (cases "witness:*") *)
 Theorem C16_refuted_fields :
-  let c := CSched wit_db 4%N wit_fields wit_sigma false in
-  known_C16 c = [1] /\ complete 2 wit_sigma = true /\
-  (exists s, run_sched wit_db wit_fields wit_sigma = Some s /\ s_acked s = [0; 1]%nat /\
+  let c := CSched wit_rt wit_db 4%N wit_fields wit_sigma false in
+  known_C16 c = [1] /\ wf_case c = true /\ complete 2 wit_sigma = true /\
+  (exists s, run_sched wit_rt wit_db wit_fields wit_sigma = Some s /\ s_acked s = [0; 1]%nat /\
      (exists r, find_row 1%N (s_db s) = Some r /\
                 get_field 0%N (r_fields r) = Some 1 /\ get_field 1%N (r_fields r) = Some 22) /\
      (forall pi, Permutation [0; 1]%nat pi ->
@@ -35,9 +37,9 @@ Proof. exact refuted_fields. Qed.
 Print Assumptions C16_refuted_fields.
 
 Theorem C16_refuted_reference :
-  let c := CSched wit_db 4%N wit_refs wit_sigma false in
-  known_C16 c = [1] /\ complete 2 wit_sigma = true /\
-  (exists s, run_sched wit_db wit_refs wit_sigma = Some s /\ s_acked s = [0; 1]%nat /\
+  let c := CSched wit_rt wit_db 4%N wit_refs wit_sigma false in
+  known_C16 c = [1] /\ wf_case c = true /\
+  (exists s, run_sched wit_rt wit_db wit_refs wit_sigma = Some s /\ s_acked s = [0; 1]%nat /\
      length (get_edges 1%N (edges_of 1%N (s_db s))) = 2%nat /\
      (forall pi, Permutation [0; 1]%nat pi ->
                  length (get_edges 1%N (edges_of 1%N (fold_left (spec_apply_i wit_refs) pi wit_db))) = 1%nat)) /\
@@ -46,9 +48,9 @@ Proof. exact refuted_reference. Qed.
 Print Assumptions C16_refuted_reference.
 
 Theorem C16_refuted_room_move :
-  let c := CSched wit_db 4%N wit_room wit_sigma false in
-  known_C16 c = [1] /\ complete 2 wit_sigma = true /\
-  (exists s, run_sched wit_db wit_room wit_sigma = Some s /\ s_acked s = [0; 1]%nat /\
+  let c := CSched wit_rt wit_db 4%N wit_room wit_sigma false in
+  known_C16 c = [1] /\ wf_case c = true /\
+  (exists s, run_sched wit_rt wit_db wit_room wit_sigma = Some s /\ s_acked s = [0; 1]%nat /\
      (exists r, find_row 1%N (s_db s) = Some r /\ r_room r = Some 1%N /\ get_field 0%N (r_fields r) = Some 1) /\
      (forall pi, Permutation [0; 1]%nat pi ->
                  exists r, find_row 1%N (fold_left (spec_apply_i wit_room) pi wit_db) = Some r /\ r_room r = Some 2%N)) /\
@@ -56,12 +58,27 @@ Theorem C16_refuted_room_move :
 Proof. exact refuted_room_move. Qed.
 Print Assumptions C16_refuted_room_move.
 
+(* deletion and creation racing with an update (R1 . R2 V2 W2 . R3 V3 W3 . V1 W1): the stale
+   update lands on the rowid that the NEW row took over: all three acknowledged, the deleted row
+   is back, the new row is gone *)
+Theorem C16_refuted_rowid_takeover :
+  let c := CSched wit_rt wit_db 4%N wit_takeover takeover_sigma false in
+  known_C16 c = [1] /\ wf_case c = true /\
+  (exists s, run_sched wit_rt wit_db wit_takeover takeover_sigma = Some s /\ s_acked s = [1; 2; 0]%nat /\
+     find_row 1%N (s_db s) <> None /\ find_row 11%N (s_db s) = None /\
+     (forall pi, Permutation [0; 1; 2]%nat pi ->
+                 find_row 1%N (fold_left (spec_apply_i wit_takeover) pi wit_db) = None /\
+                 find_row 11%N (fold_left (spec_apply_i wit_takeover) pi wit_db) <> None)) /\
+  spec_C16 c (run_C16 c) = false.
+Proof. exact refuted_rowid_takeover. Qed.
+Print Assumptions C16_refuted_rowid_takeover.
+
 (* class 2 (a defect of the SERIAL behaviour): strictly sequential schedule, the first mutation
    only names another room: acknowledged, nothing is written *)
 Theorem C16_refuted_room_only :
-  let c := CSched wit_db 4%N wit_room_only seq_sigma false in
-  known_C16 c = [2] /\ windows_ok wit_room_only [] seq_sigma = true /\
-  (exists s, run_sched wit_db wit_room_only seq_sigma = Some s /\ s_acked s = [0; 1]%nat /\
+  let c := CSched wit_rt wit_db 4%N wit_room_only seq_sigma false in
+  known_C16 c = [2] /\ wf_case c = true /\ windows_ok wit_room_only [] seq_sigma = true /\
+  (exists s, run_sched wit_rt wit_db wit_room_only seq_sigma = Some s /\ s_acked s = [0; 1]%nat /\
      (exists r, find_row 1%N (s_db s) = Some r /\ r_room r = Some 1%N) /\
      (forall pi, Permutation [0; 1]%nat pi ->
                  exists r, find_row 1%N (fold_left (spec_apply_i wit_room_only) pi wit_db) = Some r /\ r_room r = Some 2%N)) /\
@@ -69,51 +86,70 @@ Theorem C16_refuted_room_only :
 Proof. exact refuted_room_only. Qed.
 Print Assumptions C16_refuted_room_only.
 
-(* (2) what does hold, for every schedule of any number of mutations and any length (complete
-   or not): if no Read of a mutation on row x falls between the Read and the Write of another
-   mutation on x, the state is exactly the serial application of the written mutations in write
-   order.  Covers callers that await each mutation, and mutations on different rows in flight
-   together. *)
-Theorem C16_serial_ok : forall d ms sigma s,
-  run_sched d ms sigma = Some s -> windows_ok ms [] sigma = true ->
+(* (2) what does hold.
+   In ANY schedule, overlapping or not: a mutation that the validation refused (or whose read
+   failed) is never written; the database is the result of writing what ACKNOWLEDGED mutations
+   read, nothing else — the snapshot of a refused mutation cannot leak into a later write. *)
+Theorem C16_only_acked_written : forall rt d ms sigma s,
+  run_sched rt d ms sigma = Some s ->
+  (forall i, In i (s_refused s) \/ In i (s_failed s) -> ~ In i (s_acked s)) /\
+  exists ps : list (nat * pending), map fst ps = s_acked s /\
+    s_db s = fold_left (fun d p => write p d) (map snd ps) d.
+Proof. exact only_acked_written. Qed.
+Print Assumptions C16_only_acked_written.
+
+(* for every schedule of any number of updates, creations and deletions and any length
+   (complete or not, with refusals): if no Read of a mutation on row x falls between the Read and
+   the Write of another mutation on x, the state is exactly the serial application of the written
+   mutations in write order.  Covers callers that await each request (create then update of the
+   new row, update then delete, delete then update = error), and requests on different rows in
+   flight together. *)
+Theorem C16_serial_ok : forall rt d ms sigma s,
+  NoDup (rowids d) ->
+  run_sched rt d ms sigma = Some s -> windows_ok ms [] sigma = true ->
   s_db s = fold_left (apply ms) (s_acked s) d.
 Proof. exact serial_ok. Qed.
 Print Assumptions C16_serial_ok.
 
-(* the code's read-then-write of one mutation alone IS the abstract semantics of that mutation,
+(* the code's read-then-write of one request alone IS the abstract semantics of that request,
    except for a room move that changes nothing else (class 2) *)
 Theorem C16_serial_step_refines_spec : forall m d,
-  ignored_move d m = false ->
+  wfP d -> fresh_create d m -> ignored_move d m = false ->
   match read d m with Some p => write p d | None => d end = spec_apply m d.
 Proof. exact apply1_spec. Qed.
 Print Assumptions C16_serial_step_refines_spec.
 
-Theorem C16_serial_spec : forall d ms sigma s,
-  run_sched d ms sigma = Some s -> windows_ok ms [] sigma = true -> moves_ok ms d (s_acked s) = true ->
+Theorem C16_serial_spec : forall rt d ms sigma s,
+  wf_db d = true ->
+  run_sched rt d ms sigma = Some s -> windows_ok ms [] sigma = true ->
+  moves_ok ms d (s_acked s) = true -> creates_fresh ms d (s_acked s) = true ->
   s_db s = fold_left (spec_apply_i ms) (s_acked s) d.
 Proof. exact serial_spec. Qed.
 Print Assumptions C16_serial_spec.
 
-(* the reason: a write of a mutation on another row changes nothing a read can see *)
+(* the reason: a write of a request on another row changes nothing a read can see *)
 Theorem C16_other_rows_frame : forall d m mo p,
-  read d mo = Some p -> m_row mo <> m_row m -> read (write p d) m = read d m.
+  NoDup (rowids d) -> read d mo = Some p -> m_row mo <> m_row m -> read (write p d) m = read d m.
 Proof. exact other_rows_frame. Qed.
 Print Assumptions C16_other_rows_frame.
 
 (* (3) the same, on the functions the harness evaluates: outside the known classes (no
    overlapping windows on one row; no order in which a room move is ignored) the oracle — final
    rows and references = abstract sequential semantics of the acknowledged mutations in some
-   order — accepts what the model predicts the implementation does; complete or not *)
-Theorem C16_outside_known : forall d nf ms sigma b,
-  known_C16 (CSched d nf ms sigma b) = [] ->
-  run_sched d ms sigma <> None ->
-  spec_C16 (CSched d nf ms sigma b) (run_C16 (CSched d nf ms sigma b)) = true.
+   order — accepts what the model predicts the implementation does; complete or not.
+   wf_case: ids and rowids of the initial rows are unique and a creation draws a new id. *)
+Theorem C16_outside_known : forall rt d nf ms sigma b,
+  known_C16 (CSched rt d nf ms sigma b) = [] ->
+  wf_case (CSched rt d nf ms sigma b) = true ->
+  run_sched rt d ms sigma <> None ->
+  spec_C16 (CSched rt d nf ms sigma b) (run_C16 (CSched rt d nf ms sigma b)) = true.
 Proof. exact outside_known. Qed.
 Print Assumptions C16_outside_known.
 
 Example C16_nonvacuous :
-  let c := CSched nv_db 3%N nv_ms nv_sigma false in
-  known_C16 c = [] /\ run_sched nv_db nv_ms nv_sigma <> None /\
+  let c := CSched wit_rt nv_db 4%N nv_ms nv_sigma false in
+  known_C16 c = [] /\ wf_case c = true /\
+  (exists s, run_sched wit_rt nv_db nv_ms nv_sigma = Some s /\ s_acked s = [1; 0; 3]%nat /\ s_refused s = [2]%nat) /\
   windows_ok nv_ms [] [R 0; R 2; V 0; W 0; V 2; W 2]%nat = false.
 Proof. exact nonvacuous. Qed.
 Print Assumptions C16_nonvacuous.
